@@ -4,13 +4,15 @@
   chargeForGas, checkSignersWeight, verifyTransactionSigs, ChangeVotesByBalance),
   candidate_vote_tx.go (CallVoteTx, modifyCandidateVotes, registerCandidate, unRegisterCandidate,
   refundDeposit, Refund, modifyCandidateInfo, addDepositChangeVotes), box_tx.go (RunBoxTxs) and
-  consensus/assembler.go (Finalize without term rewards).
+  consensus/assembler.go (Finalize: issueTermReward / DivideSalary / calculateSalary, refundCandidateDeposit,
+  then ChangeVotesByBalance).  Whether a height is a reward block is the GENERATED `LemoGen.Schedule.IsRewardBlock`.
 
   Serves C05 (conservation / exact gas), C11 (vote tally), C06 (authorisation), C04 (identity vs
   content) and C01 (miner path ≡ validator path).  Core Lean only.  Tied to the code by `hx c05`.
   The base intrinsic-gas table and the data-gas constants are the GENERATED `LemoGen.Gas` definitions.
 -/
 import LemoGen.Gas
+import LemoGen.Schedule
 namespace LemoModel.Ledger
 open LemoModel
 
@@ -24,6 +26,7 @@ structure Params where
   termDuration : Nat := 1000000
   interimDuration : Nat := 1000
   pool : Nat := 1                               -- label of DepositPoolAddress
+  rewardPrecision : Int := 1000000000000000000  -- MinRewardPrecision (1 LEMO)
 
 structure Acct where
   bal : Int := 0
@@ -161,11 +164,25 @@ def chargeForGas (s : St) (miner : Nat) (charge : Int) : St :=
     let inc := (s.accts miner).income
     if inc = 0 then s else setBal s inc ((s.accts inc).bal + charge)
 
+/-- what `Finalize` reads, at a reward height, from outside the account state: the reward of the closing term
+    (`getTermRewards`: storage of precompile 0x09), the nodes of that term's record (`dm.GetTermByHeight(height-1)`:
+    miner address and votes at the snapshot) and the list `LoadRefundCandidates(height)` returned
+    (unregistered candidates with a deposit whose node is not a deputy of the NEW term).  Trusted inputs. -/
+structure RewardFacts where
+  total : Int := 0
+  nodes : List (Nat × Int) := []
+  refunds : List Nat := []
+
 structure Ctx where
   p : Params
   miner : Nat
   height : Nat
   dedup : Bool := true
+  rf : RewardFacts := {}
+  /-- `true` = the code as it stands: ChangeVotesByBalance runs AFTER issueTermReward / refundCandidateDeposit.
+      `false` = the order in which the vote pass runs first (the salaries and refunds of a reward block then
+      never reach the candidates their receivers vote for). -/
+  votesLast : Bool := true
 
 /-! ### the non-EVM transaction bodies -/
 
@@ -375,12 +392,82 @@ def votesByBalance (c : Ctx) (start : Nat → Int) (s : St) : List Nat → St
       then { s with accts := upd s.accts cand { s.accts cand with votes := (s.accts cand).votes + d } } else s
     votesByBalance c start s as
 
-/-- a whole block on the miner path: ApplyTxs, chargeForGas, Finalize (no term reward / refund height) -/
+/-! ### Finalize -/
+
+def isRewardBlock (c : Ctx) : Bool :=
+  LemoGen.Schedule.IsRewardBlock c.height c.p.termDuration c.p.interimDuration
+
+/-- `TermRecord.GetTotalVotes` -/
+def totalVotes (nodes : List (Nat × Int)) : Int := (nodes.map (·.2)).sum
+
+/-- `calculateSalary`: ⌊total·votes/totalVotes⌋ (⌊total/n⌋ when nobody has votes), rounded DOWN to a multiple of
+    the precision. big.Int `Div`/`Mod` are Euclidean, as Lean's `/` and `%` on `Int`. -/
+def calcSalary (p : Params) (total votes tv : Int) (n : Nat) : Int :=
+  let r := if tv = 0 then total / (n : Int) else total * votes / tv
+  r - r % p.rewardPrecision
+
+/-- `getDeputyIncomeAddress`: the income address of the miner's profile, the miner itself without one -/
+def incomeOf (s : St) (miner : Nat) : Nat :=
+  if (s.accts miner).income = 0 then miner else (s.accts miner).income
+
+/-- `DivideSalary`: (receiver, salary) per node of the term; all receivers are looked up before anything is paid -/
+def divideSalary (p : Params) (s : St) (total : Int) (nodes : List (Nat × Int)) : List (Nat × Int) :=
+  nodes.map fun n => (incomeOf s n.1, calcSalary p total n.2 (totalVotes nodes) nodes.length)
+
+/-- the payment loop of `issueTermReward`: the salary is ADDED to the receiver's balance (minted — no account is debited) -/
+def paySalaries : St → List (Nat × Int) → St
+  | s, [] => s
+  | s, (a, x) :: r => paySalaries (setBal s a ((s.accts a).bal + x)) r
+
+/-- `issueTermReward` at a reward height -/
+def issueTermReward (c : Ctx) (s : St) : St :=
+  if c.rf.total > 0 then paySalaries s (divideSalary c.p s c.rf.total c.rf.nodes) else s
+
+/-- `refundCandidateDeposit` at a reward height: `Refund` for every listed candidate, in order -/
+def refundAll (c : Ctx) : St → List Nat → St
+  | s, [] => s
+  | s, a :: as => refundAll c (refund c s a) as
+
+/-- the Go panics `Finalize` can raise at a reward height, made explicit (the driver prints `panic`; the functions
+    above are only meaningful when this is `false`): `Mod` by a zero precision, `Refund` of an account without a
+    parsable deposit, `Refund` with an insufficient deposit pool. -/
+def refundPanics (c : Ctx) : St → List Nat → Bool
+  | _, [] => false
+  | s, a :: as =>
+    match (s.accts a).deposit with
+    | none => true
+    | some d => decide ((s.accts c.p.pool).bal < d) || refundPanics c (refund c s a) as
+
+def finalizePanics (c : Ctx) (s : St) : Bool :=
+  isRewardBlock c &&
+    ((decide (c.rf.total > 0) && !c.rf.nodes.isEmpty && decide (c.p.rewardPrecision = 0)) ||
+     refundPanics c (issueTermReward c s) c.rf.refunds)
+
+/-- the balance-changing steps of `Finalize`: nothing outside a reward block -/
+def rewardSteps (c : Ctx) (s : St) : St :=
+  if isRewardBlock c then refundAll c (issueTermReward c s) c.rf.refunds else s
+
+/-- `Finalize`: `start` = the balances when the block began, `addrs` = the address universe of the vote pass.
+    As coded: term reward, deposit refunds, THEN the vote pass over all balance changes of the block. -/
+def finalize (c : Ctx) (start : Nat → Int) (s : St) (addrs : List Nat) : St :=
+  if c.votesLast then votesByBalance c start (rewardSteps c s) addrs
+  else rewardSteps c (votesByBalance c start s addrs)
+
+/-- a whole block on the miner path: ApplyTxs, chargeForGas, Finalize -/
 def mineBlock (c : Ctx) (s : St) (gp : Nat) (txs : List Tx) (addrs : List Nat) : St × List (Nat × Nat) × List (Nat × String) × Nat :=
   let start := fun a => (s.accts a).bal
   let r := mine c s gp txs
   let s2 := chargeForGas r.st c.miner r.fee
-  (votesByBalance c start s2 addrs, r.sel, r.inv, r.gas)
+  (finalize c start s2 addrs, r.sel, r.inv, r.gas)
+
+/-- a whole block on the validator path (`RunBlock`): Process, chargeForGas, the same Finalize -/
+def validateBlock (c : Ctx) (s : St) (gp : Nat) (txs : List (Tx × Nat)) (addrs : List Nat) : Option (St × Nat) :=
+  let start := fun a => (s.accts a).bal
+  match validate c s gp txs with
+  | none => none
+  | some (s1, _, g, f) =>
+    let s2 := chargeForGas s1 c.miner f
+    some (finalize c start s2 addrs, g)
 
 def sumBal (s : St) (addrs : List Nat) : Int := (addrs.map fun a => (s.accts a).bal).sum
 
